@@ -20,6 +20,8 @@ def corpus(tier, seed):
     inputs += [i for i in c02.corpus(tier, seed, rules=("SequentialRCV", "IRV"), offset=1313) if not i.get("slow")][: 1500 if q else 20000]
     sn = [i for i in EL.family_inputs(rng, "oneshot", cands, 2, D.INT_W(2), per_bag=None) if i["cfg"]["rule"] == "SNTV"]
     inputs += rng.sample(sn, min(len(sn), 600 if q else 6000))
+    inputs += EL.partial_tie_inputs(rng, "composite", 60 if q else 1200)
+    inputs += EL.partial_tie_inputs(rng, "oneshot", 30 if q else 600, rules=("SNTV",))
     return EL.add_slow_slice(rng, inputs, 100 if q else 1000)
 
 
